@@ -21,7 +21,7 @@
 (* is built; `used`: lastUsed has been stored (reaper would panic on a nil load).  *)
 EXTENDS Integers, FiniteSets, TLC
 
-CONSTANTS Procs, Names, MaxCalls, MaxAge, MaxReap, Faults
+CONSTANTS Procs, Names, MaxCalls, MaxAge, MaxReap, Faults, SplitGet
 
 VARIABLES cache,    \* set of transports in the map
           nid,      \* transport identities handed out so far
@@ -47,6 +47,11 @@ Init ==
   /\ reaped = {}
   /\ handed = [p \in Procs |-> NoTr]
 
+(* SplitGet = FALSE is the code: lookup, creation on a miss and lastUsed.Store are ONE critical section.     *)
+(* SplitGet = TRUE is the design that looks the name up under a read lock and, on a miss, creates and      *)
+(* stores the transport in a second (write-locked) critical section without looking again: pc "create".    *)
+(* TransportCache_split.cfg shows that it breaks CallersShareTheCachedTransport for the interleaving        *)
+(* miss(c1) miss(c2) create(c1) create(c2) - the reason the single critical section is required.            *)
 GetBody(p, l) ==
   IF \E t \in cache : t.name = l.name
   THEN LET t == CHOOSE t \in cache : t.name = l.name
@@ -55,11 +60,24 @@ GetBody(p, l) ==
           /\ loc' = [loc EXCEPT ![p] = [l EXCEPT !.pc = "send", !.held = t.id, !.status = "run"]]
           /\ handed' = [handed EXCEPT ![p] = u]
           /\ UNCHANGED nid
-  ELSE LET u == [name |-> l.name, id |-> nid + 1, aged |-> FALSE, init |-> TRUE, used |-> TRUE]
-       IN /\ cache' = cache \cup {u}
-          /\ nid' = nid + 1
-          /\ loc' = [loc EXCEPT ![p] = [l EXCEPT !.pc = "send", !.held = nid + 1, !.status = "run"]]
-          /\ handed' = [handed EXCEPT ![p] = u]
+  ELSE IF SplitGet
+       THEN /\ loc' = [loc EXCEPT ![p] = [l EXCEPT !.pc = "create", !.status = "run"]]
+            /\ UNCHANGED <<cache, nid, handed>>
+       ELSE LET u == [name |-> l.name, id |-> nid + 1, aged |-> FALSE, init |-> TRUE, used |-> TRUE]
+            IN /\ cache' = cache \cup {u}
+               /\ nid' = nid + 1
+               /\ loc' = [loc EXCEPT ![p] = [l EXCEPT !.pc = "send", !.held = nid + 1, !.status = "run"]]
+               /\ handed' = [handed EXCEPT ![p] = u]
+
+(* only with SplitGet: the second critical section; the map assignment replaces whatever is stored for the name *)
+CreateNoRecheck(p) ==
+  /\ loc[p].pc = "create"
+  /\ LET u == [name |-> loc[p].name, id |-> nid + 1, aged |-> FALSE, init |-> TRUE, used |-> TRUE]
+     IN /\ cache' = {t \in cache : t.name # loc[p].name} \cup {u}
+        /\ nid' = nid + 1
+        /\ loc' = [loc EXCEPT ![p] = [@ EXCEPT !.pc = "send", !.held = nid + 1]]
+        /\ handed' = [handed EXCEPT ![p] = u]
+  /\ UNCHANGED <<nage, nreap, ncalls, gets, reaped>>
 
 Call(p, n) ==
   /\ loc[p].pc = "idle"
@@ -106,7 +124,7 @@ Age(n) ==
 Terminated == \A p \in Procs : loc[p].pc = "idle" /\ ncalls[p] = MaxCalls
 Done == Terminated /\ UNCHANGED vars
 
-Step(p) == GetAgain(p) \/ SendOk(p) \/ SendFail(p)
+Step(p) == GetAgain(p) \/ CreateNoRecheck(p) \/ SendOk(p) \/ SendFail(p)
 Next == \/ \E p \in Procs : Step(p)
         \/ \E p \in Procs, n \in Names : Call(p, n)
         \/ Reaper
@@ -119,7 +137,7 @@ View == mech
 
 (* ------------------------------ properties ------------------------------ *)
 TypeOK == /\ \A t \in cache : t.name \in Names /\ t.id \in 1..nid
-          /\ \A p \in Procs : loc[p].pc \in {"idle", "get", "send"}
+          /\ \A p \in Procs : loc[p].pc \in {"idle", "get", "create", "send"}
 
 OneTransportPerName == \A t1, t2 \in cache : t1.name = t2.name => t1 = t2
 IdentitiesNeverReused == \A t1, t2 \in cache \cup reaped : t1.id = t2.id => t1.name = t2.name
@@ -127,6 +145,16 @@ NeverHalfInitialised ==
   /\ \A t \in cache : t.init /\ t.used
   /\ \A p \in Procs : handed[p] # NoTr => handed[p].init /\ handed[p].used /\ ~handed[p].aged
   /\ \A p \in Procs : loc[p].pc = "send" => loc[p].held = handed[p].id /\ handed[p].name = loc[p].name
+(* The sequential reference: every caller of one TLS name is handed THE transport of that name - the one  *)
+(* in the map, unless the reaper has deleted it since (then it is in `reaped`).  No sequential order of    *)
+(* getTransport calls hands out a transport that never was, or no longer is, the cached one.               *)
+CallersShareTheCachedTransport ==
+  \A p \in Procs : loc[p].pc = "send" =>
+     \/ \E t \in cache : t.id = loc[p].held /\ t.name = loc[p].name
+     \/ \E t \in reaped : t.id = loc[p].held /\ t.name = loc[p].name
+SameNameSameTransport ==
+  \A p, q \in Procs : (loc[p].pc = "send" /\ loc[q].pc = "send" /\ loc[p].name = loc[q].name
+                        /\ loc[p].held # loc[q].held) => \E t \in reaped : t.id \in {loc[p].held, loc[q].held}
 BoundedRetries == \A p \in Procs : gets[p] <= 3
 OnlyAgedAreReaped == \A t \in reaped : t.aged
 EveryCallReturns == \A p \in Procs : (loc[p].pc # "idle") ~> (loc[p].pc = "idle")
